@@ -114,7 +114,7 @@ func collectBoundsSites(fn *ssa.Function) []boundsSite {
 
 // lenFactEdges: CFG edges of fn on which "idx < len(x)" (strict) / "idx <= len(x)" is established,
 // either symbolically (same rendering) or through constants (len(x) >= c with c large enough).
-func lenFactEdges(fn *ssa.Function, x ssa.Value, idx ssa.Value, strict bool) map[edge]bool {
+func lenFactEdgesStringBased(fn *ssa.Function, x ssa.Value, idx ssa.Value, strict bool) map[edge]bool {
 	edges := map[edge]bool{}
 	lenX := "len(" + Path(x) + ")"
 	idxS := Path(idx)
@@ -385,7 +385,21 @@ func isUnreachablePanic(p *ssa.Panic) bool {
 }
 
 // makeSizeBounded: the size of make is len(x)-derived, or dominated by "size <= K" / "size < K".
+// boundedCountHelpers: callee globs whose (first int) result is a count already checked against a
+// caller-supplied maximum or the remaining input; their own bodies are decided by separate guard rules.
+var boundedCountHelpers = []string{
+	"pkg/channel/replication.exchangeCursor.count", "pkg/channel/replication.exchangeCursor.sliceCount",
+	"pkg/cluster/channels.readSliceHeader", "pkg/cluster/channels.readCollectionLen",
+}
+
 func makeSizeBounded(fn *ssa.Function, mk *ssa.MakeSlice) bool {
+	var szv ssa.Value = stripConv(mk.Len)
+	if ex, ok := szv.(*ssa.Extract); ok {
+		szv = ex.Tuple
+	}
+	if call, ok := szv.(*ssa.Call); ok && globAny(boundedCountHelpers, calleeName(&call.Call)) {
+		return true
+	}
 	sz := Path(mk.Len)
 	if strings.HasPrefix(sz, "len(") || strings.Contains(sz, "len(") && !strings.Contains(sz, "#") {
 		return true // proportional to data already in memory
